@@ -234,7 +234,7 @@ func (d *dumper) lookup(pkg *types.Package, name string) (string, error) {
 	if obj == nil {
 		return "LNotFound", nil
 	}
-	if !types.IsInterface(obj.Type()) {
+	if _, isTypeName := obj.(*types.TypeName); !isTypeName || !types.IsInterface(obj.Type()) {
 		s := obj.Type().String()
 		if !asciiOnly(s) {
 			return "", errUnsupported{"non-ASCII type string"}
